@@ -240,7 +240,12 @@ func runOnce(t *testing.T, k *kase, deadline time.Duration) {
 					res = map[string]any{"err": "other"}
 					return
 				}
-				res = map[string]any{"w": wlOut(w)}
+				d := &cmtypes.WorkloadResource{}
+				if err := d.Parse(resp.DeltaResource); err != nil {
+					res = map[string]any{"err": "other"}
+					return
+				}
+				res = map[string]any{"w": wlOut(w), "d": wlOut(d)}
 			}
 		}
 	})
@@ -519,6 +524,10 @@ func corpus() []*kase {
 			NUMAMemUse: map[string]int64{"n0": 5000, "n1": 0}}, request{Bind: true, CPU: 1000, Mem: 1024}, 1, nil),
 		mk("realloc", 100, -1, node{Cap: two, Use: map[string]int{"0": 100, "1": 0}, Mem: 4096, MemUse: 8192},
 			request{Keep: true, Mem: 1024, MemLim: 1024}, 1, &workload{CPU: 1000, CPULim: 1000, Mem: 1024, MemLim: 1024, Map: map[string]int{"0": 100}, NUMAMem: map[string]int64{}}),
+		// realloc with limit delta > request delta: the request is raised to the limit by Validate and the
+		// raised value must be the one recorded (bound 1.0/1.0 on core 0, keep-bind, request +0, limit +1)
+		mk("realloc", 100, -1, node{Cap: two, Use: map[string]int{"0": 100, "1": 0}, Mem: 1000, MemUse: 10},
+			request{Keep: true, CPU: 0, CPULim: 1000}, 1, &workload{CPU: 1000, CPULim: 1000, Mem: 10, MemLim: 10, Map: map[string]int{"0": 100}, NUMAMem: map[string]int64{}}),
 		// D23: fractional workload moved by keep-bind realloc
 		mk("realloc", 100, -1, node{Cap: two, Use: map[string]int{"0": 100, "1": 50}, Mem: 1000, MemUse: 10},
 			request{Keep: true}, 1, &workload{CPU: 1500, CPULim: 1500, Mem: 10, MemLim: 10, Map: map[string]int{"0": 100, "1": 50}, NUMAMem: map[string]int64{}}),
@@ -595,7 +604,7 @@ func TestGen(t *testing.T) {
 		case "C04":
 			op = hx.Pick(r, "plans", "deploy", "deploy")
 		case "C05":
-			op = hx.Pick(r, "plans", "deploy")
+			op = hx.Pick(r, "plans", "deploy", "realloc")
 		case "C06":
 			op = hx.Pick(r, "plans", "plans", "deploy", "realloc")
 		default:
@@ -647,7 +656,10 @@ func TestGen(t *testing.T) {
 			whole := r.Chance(80)
 			n := genNode(r, base, whole)
 			var cpu int64
-			if r.Chance(60) {
+			cpuDelta := prop != "C33" && r.Chance(45) // request/limit deltas (exact in float: multiples of 0.5 core)
+			if cpuDelta {
+				cpu = int64(r.Range(1, 6)) * 500
+			} else if r.Chance(60) {
 				cpu = int64(r.Range(1, 3)) * 1000
 			} else {
 				cpu = genCPU(r, base)
@@ -665,7 +677,34 @@ func TestGen(t *testing.T) {
 			if r.Chance(6) {
 				overuseMemory(r, &n, mem+1, false)
 			}
-			emit(&kase{Op: op, Base: base, MaxShare: ms, Node: n, Req: request{Keep: true, Mem: delta, MemLim: delta}, Count: 1, Origin: w})
+			rq := request{Keep: true, Mem: delta, MemLim: delta}
+			if cpuDelta {
+				half := func(lo, hi int) int64 { return int64(r.Range(lo, hi)) * 500 }
+				switch r.Intn(6) {
+				case 0: // limit delta > request delta (request raised to the limit when bound)
+					rq.CPU, rq.CPULim = 0, half(1, 4)
+				case 1:
+					rq.CPU = half(0, 3)
+					rq.CPULim = rq.CPU + half(1, 3)
+				case 2: // limit delta < request delta
+					rq.CPU = half(1, 4)
+					rq.CPULim = rq.CPU - half(1, 3)
+				case 3: // negative deltas
+					rq.CPU, rq.CPULim = -half(0, 3), -half(0, 3)
+				case 4: // equal deltas
+					rq.CPU = half(-2, 4)
+					rq.CPULim = rq.CPU
+				default:
+					rq.CPU, rq.CPULim = half(-3, 4), half(-3, 4)
+				}
+				switch r.Intn(5) {
+				case 0: // explicit bind instead of keep-bind
+					rq.Keep, rq.Bind = false, true
+				case 1: // unbind
+					rq.Keep, rq.Bind = false, false
+				}
+			}
+			emit(&kase{Op: op, Base: base, MaxShare: ms, Node: n, Req: rq, Count: 1, Origin: w})
 		}
 	}
 	// malformed stream: invalid node, max-share 0, zero/negative request, unbound
